@@ -6,3 +6,10 @@ import UberjobModel.Props.C10
 #print axioms Uberjob.Engine.C10_none
 #print axioms Uberjob.Engine.C10_parallel
 #print axioms Uberjob.Engine.C10_parallel_begin
+#print axioms Uberjob.Engine.C10_retry_attempts
+#print axioms Uberjob.Engine.C10_retry_bounds
+#print axioms Uberjob.Engine.C10_retry_first_success
+#print axioms Uberjob.Engine.C10_retry_last_exception
+#print axioms Uberjob.Engine.C10_retry_base_exception
+#print axioms Uberjob.Engine.C10_retry_one_is_identity
+#print axioms Uberjob.Engine.C10_retry_sites
